@@ -8,14 +8,17 @@
    store call, true = that call fails), the mutex bit and the deliveries made so far: every theorem
    is for all states, hence for every fault assignment.  The only hypothesis on a retried block is
    [nodupk (map (dkey src) ds)]: its deposits are pairwise different (destination, nonce). *)
-From Coq Require Import List NArith Bool.
+From Coq Require Import List NArith Bool Permutation.
 Import ListNotations.
 From SygmaV Require Import Model.C17 Proofs.C17 Proofs.C17_Conc Proofs.C17_Script.
 Local Open Scope N_scope.
 
 (* A retry re-emits those and only those deposits of the block that are selected (destination and
    resource of the request; every deposit for RetryV1), are not recorded executed, and whose store
-   calls all succeeded - in block order (per destination domain for RetryV1). *)
+   calls all succeeded.  The MODEL (like the code it follows) keeps the block order (per destination
+   domain for RetryV1); the property does not fix the order inside the re-emitted batch and the judge
+   of the correspondence run does not look at it (C17_judge_step_retry, C17_judge_step_retry_exact,
+   C17_judge_step_order_free below) - a different order shows as model/implementation mismatch only. *)
 Theorem C17_filter_exact : forall p src res dest ds x x' em,
   nodupk (map (dkey src) ds) = true ->
   step (Retry p src res dest ds) x = (x', ORetry em) ->
@@ -103,12 +106,50 @@ Theorem C17_hist_ok_not_stuck : forall univ ops pre obs_,
 Proof. exact hist_ok_not_stuck. Qed.
 Print Assumptions C17_hist_ok_not_stuck.
 
+(* An accepted retry re-emitted a PERMUTATION of the expected deposits (multiset reading of "those and
+   only those": the same deposits, each as often, in any order) and left each of them startable ... *)
 Theorem C17_judge_step_retry : forall univ pre p src res dest ds ou failed post,
   judge_step univ pre (Retry p src res dest ds) (ou, failed, post) = true ->
-  exists em, ou = ORetry em /\ em = regroup p (expected_retry p src res dest ds pre failed) /\
+  exists em, ou = ORetry em /\ Permutation em (regroup p (expected_retry p src res dest ds pre failed)) /\
              (forall d, In d em -> startable (get post (dkey src d)) = true).
 Proof. exact judge_step_retry. Qed.
 Print Assumptions C17_judge_step_retry.
+
+(* ... i.e. for a well-formed block: no deposit twice, and a deposit is re-emitted if and only if it is
+   in the block, selected, not recorded executed before the retry and none of its store calls failed. *)
+Theorem C17_judge_step_retry_exact : forall univ pre p src res dest ds failed post em,
+  wf_op (Retry p src res dest ds) = true ->
+  judge_step univ pre (Retry p src res dest ds) (ORetry em, failed, post) = true ->
+  NoDup em /\
+  forall d, In d em <->
+    (In d ds /\ sel_of p res dest d = true /\ is_exec (get pre (dkey src d)) = false /\ ~ In (dkey src d) failed).
+Proof. exact judge_step_retry_exact. Qed.
+Print Assumptions C17_judge_step_retry_exact.
+
+(* The judge never looks at the order inside the re-emitted batch: it accepts every permutation of an
+   accepted batch. *)
+Theorem C17_judge_step_order_free : forall univ pre o em em' failed post,
+  Permutation em em' ->
+  judge_step univ pre o (ORetry em, failed, post) = true ->
+  judge_step univ pre o (ORetry em', failed, post) = true.
+Proof. exact judge_step_order_free. Qed.
+Print Assumptions C17_judge_step_order_free.
+
+(* Non-vacuity of the multiset reading: the batch in nonce order is accepted although the block (and the
+   model) has the deposits in the order 2, 1; a batch that lacks one, repeats one or adds an executed
+   one is rejected. *)
+Example C17_order_free_nonvacuous :
+  let blk := [mkDep 2 2 7; mkDep 2 1 7; mkDep 2 3 7] in
+  let pre := [((1, 2, 3), Executed)] in
+  let u := [(1, 2, 1); (1, 2, 2); (1, 2, 3)] in
+  wf_op (Retry PFilter 1 7 2 blk) = true /\
+  fst (fst (hd (OExec, [], []) (run [Retry PFilter 1 7 2 blk] (init_state pre [])))) = ORetry [mkDep 2 2 7; mkDep 2 1 7] /\
+  judge_step u pre (Retry PFilter 1 7 2 blk) (ORetry [mkDep 2 1 7; mkDep 2 2 7], [], pre) = true /\
+  judge_step u pre (Retry PFilter 1 7 2 blk) (ORetry [mkDep 2 2 7; mkDep 2 1 7], [], pre) = true /\
+  judge_step u pre (Retry PFilter 1 7 2 blk) (ORetry [mkDep 2 1 7], [], pre) = false /\
+  judge_step u pre (Retry PFilter 1 7 2 blk) (ORetry [mkDep 2 1 7; mkDep 2 1 7; mkDep 2 2 7], [], pre) = false /\
+  judge_step u pre (Retry PFilter 1 7 2 blk) (ORetry [mkDep 2 1 7; mkDep 2 2 7; mkDep 2 3 7], [], pre) = false.
+Proof. vm_compute. repeat split. Qed.
 
 (* ---- concurrent use of one store ----
    Operations on different keys commute: two threads (local states x1, x2: fault schedule, mutex bit,
